@@ -21,7 +21,7 @@
    (enum_head: _parse_enum_decl up to the closing brace), using statements
    (Parse/Using.v), static_assert, friends and access specifiers.
 
-   Outside this model (code 4): attributes behind the class key, qualified or
+   Outside this model (code 4): `[[...]]` / alignas behind the class key, qualified or
    templated class names, elaborated type specifiers in declarations (`struct X x;`),
    template headers, class definitions behind `typedef` inside a class.
    Tied to the code by the differential run of harness/classdef.py. *)
@@ -40,10 +40,32 @@ Definition is_class_key (t : tk) : bool := is T_class t || is T_struct t || is T
 
 (* the specifier loop of _parse_type up to a class key, and the name behind it (_parse_pqname, compound_ok).
    None: the statement is not a class statement (the other statement models take it) *)
-Definition key_name (m : mods) (key : list N) (r : list tk) : dres (mods * list N * option N * list tk) :=
+(* _consume_attribute behind a class key, through the translated programs of Gen/Dispatch.v: the dispatcher, then the gcc
+   attribute / __declspec readers ([[...]] and alignas sequences are outside this model) *)
+Definition consume_attr (x : tk) (r : list tk) : dres (list tk) :=
+  match DispatchLang.run Dispatch.prog_consume_attribute false x r with
+  | DispatchLang.OCall DispatchLang.F_gcc_attribute [DispatchLang.RTok (Some k)] [] r1 =>
+      match DispatchLang.run Dispatch.prog_consume_gcc_attribute false k r1 with
+      | DispatchLang.ODone r2 => DOk r2
+      | DispatchLang.OErr e => DErr e
+      | _ => DErr 3
+      end
+  | DispatchLang.OCall DispatchLang.F_declspec [DispatchLang.RTok (Some k)] [] r1 =>
+      match DispatchLang.run Dispatch.prog_consume_declspec false k r1 with
+      | DispatchLang.ODone r2 => DOk r2
+      | DispatchLang.OErr e => DErr e
+      | _ => DErr 3
+      end
+  | DispatchLang.OCall _ _ _ _ => DErr 4
+  | DispatchLang.OErr e => DErr e
+  | _ => DErr 3
+  end.
+
+(* the name behind the class key (and its attribute): NAME, or none -- then the type is anonymous *)
+Definition name_part (m : mods) (key : list N) (r : list tk) : dres (mods * list N * option N * list tk) :=
   match r with
   | x :: r1 =>
-      if memN (kty x) attribute_start_tokens || is T_DBL_COLON x then DErr 4
+      if is T_DBL_COLON x then DErr 4
       else if is T_NAME x then
         match r1 with
         | y :: _ => if is T_DBL_COLON y || is T_LIT_60 y then DErr 4 else DOk (m, key, Some (kval x), r1)
@@ -51,6 +73,18 @@ Definition key_name (m : mods) (key : list N) (r : list tk) : dres (mods * list 
         end
       else DOk (m, key, None, r)
   | [] => DOk (m, key, None, r)
+  end.
+
+Definition key_name (m : mods) (key : list N) (r : list tk) : dres (mods * list N * option N * list tk) :=
+  match r with
+  | x :: r1 =>
+      if memN (kty x) attribute_start_tokens then
+        match consume_attr x r1 with
+        | DErr e => DErr e
+        | DOk r2 => name_part m key r2
+        end
+      else name_part m key r
+  | [] => name_part m key r
   end.
 
 Fixpoint ckey_loop (m : mods) (toks : list tk) {struct toks} : option (dres (mods * list N * option N * list tk)) :=
